@@ -716,6 +716,7 @@ func c04Clock(env *core.Env) {
 		for _, c := range []struct{ src, want string }{
 			{"now().toString()", wantNow}, {"today().toString()", wantDate}, {"timeOfDay().toString()", wantTime},
 			{"Patient.nap().select(now()).toString()", wantNow}, {"Patient.nap().nap().select(timeOfDay()).toString()", wantTime},
+			{"(now() + 1 day - 1 day).toString()", wantNow}, {"(now() - 0 seconds).toString()", wantNow}, {"(today() + 1 year - 1 year).toString().substring(0, 4)", wantDate[:4]}, {"(today() + 0 days).toString()", wantDate}, {"(timeOfDay() + 24 hours).toString()", wantTime}, {"(timeOfDay() + 0 minutes).toString()", wantTime},
 		} {
 			r := fx.Eval(env, c.src, in, co, []fhirpath.EvaluateOption{o})
 			if it, ok := r.Single(); !ok || it.T != c.want {
